@@ -68,6 +68,18 @@ Theorem C21_refresh_agrees : forall w b w' r s,
 Proof. exact refresh_agrees. Qed.
 Print Assumptions C21_refresh_agrees.
 
+(* (6) WatchDeliver.  Named assumption (liveness of watchSnapshot, checked on the real
+   watcher goroutines by the C21_watch harness): after the last write every live
+   broker's refresh runs.  Then every broker's copy IS the etcd snapshot and has
+   every acknowledged topic the etcd snapshot has. *)
+Theorem C21_watch_deliver_quiesces : forall w s,
+  acks_hold w -> w_etcd w = Some s ->
+  exists w', run true w (deliver_all (length (w_local w))) = Some w' /\
+    quiesced w' /\ w_etcd w' = Some s /\
+    (forall b loc, nth_error (w_local w') b = Some loc -> covers loc (w_acks w')).
+Proof. exact watch_deliver_quiesces. Qed.
+Print Assumptions C21_watch_deliver_quiesces.
+
 (* non-vacuity: two brokers and the operator, a conflict with retry, growth kept *)
 Example C21_nonvacuous :
   let x := [120] in let y := [121] in
